@@ -367,6 +367,12 @@ def main(run, pid, level):
         else:
             rc = run(ctx)
     except Inconclusive as e:
+        if ctx.violations and not a.replay:
+            # violations of the real code were already observed (and confirmed where confirmation is required) in an earlier phase of this
+            # run: they stand; the phase that could not be completed (often BECAUSE the code is broken: a driver that dies or hangs) is noted
+            ctx.notes.append("a later phase of the check was inconclusive (%s); the violations reported were found before it" % e)
+            out("NOTE property=%s: a later phase was inconclusive (%s); the violations found before it stand" % (pid, str(e)[:200]))
+            sys.exit(ctx.finish("(run cut short by an inconclusive later phase) " + getattr(ctx, "rule_hint", "")))
         out("INCONCLUSIVE property=%s: %s" % (pid, e))
         sys.exit(2)
     except (subprocess.TimeoutExpired, MemoryError) as e:
